@@ -585,7 +585,7 @@ def replay_main(argv):
             if t.name == d['task']:
                 if t.kind == 'sym':
                     rp = S.run_concrete(t.harness, t.args, d.get('model'))
-                    bad = [c for c in rp.get('checks', []) if c['status'] == 'failed']
+                    bad = [c for c in rp.get('checks', []) if c['status'] == 'failed' and c['name'] not in t.expect_fail]   # must-fail clauses are meant to fail
                     print(json.dumps(dict(task=t.name, failed=bad, inputs=rp.get('inputs')), indent=1, default=str))
                     return 1 if bad else 0
                 else:
